@@ -2342,7 +2342,7 @@ fn main() {
     let skip_fixed = std::env::var_os("C07_SKIP_FIXED").is_some();
     let nv = if skip_fixed { 0 } else { fee_vectors().len() as u64 };
     ctx.run_enum("fee-vectors", nv, true, check_fee_vector, |i| format!("{:?}", fee_vectors()[i as usize]));
-    ctx.run_prop("fee-required", move || arb_fee_case(max_n), tier.pick(400_000, 10_000_000), check_fee_required);
+    ctx.run_prop("fee-required", move || arb_fee_case(max_n), tier.pick(1_500_000, 10_000_000), check_fee_required);
     for l in ["above-grace", "grace-floor", "overflow", "unknown-input", "size-boundary", "ironwood-actions", "non-standard-rule", "standard-fee-rule"] {
         ctx.require_min_count("fee-required", l, 2_000);
     }
@@ -2354,7 +2354,7 @@ fn main() {
         format!("{n}: {c:?} expect {e:?}")
     });
 
-    ctx.run_prop("compute-balance", move || arb_case(max_n), tier.pick(600_000, 20_000_000), check_balance);
+    ctx.run_prop("compute-balance", move || arb_case(max_n), tier.pick(3_000_000, 20_000_000), check_balance);
     ctx.require_label_fraction("compute-balance", "ok-with-change", 0.30);
     ctx.require_label_fraction("compute-balance", "near-frontier", 0.15);
     ctx.require_label_fraction("compute-balance", "insufficient", 0.05);
